@@ -900,12 +900,17 @@ func runEpisode(prog *progSpec) (res epResult) {
 // waitRest waits until all library and client goroutines are blocked in two consecutive dumps.
 func waitRest(g *gate, max time.Duration) []string {
 	deadline := time.Now().Add(max)
-	prev := ""
+	prev, same := "", 0
 	for time.Now().Before(deadline) {
 		ok, blocked := g.allBlocked()
-		cur := fmt.Sprint(ok, blocked)
+		cur := fmt.Sprint(ok, blocked, runtime.NumGoroutine())
 		if ok && cur == prev {
-			return blocked
+			same++
+			if same >= 3 {
+				return blocked
+			}
+		} else {
+			same = 0
 		}
 		prev = cur
 		time.Sleep(2 * time.Millisecond)
